@@ -2,8 +2,9 @@
 
 A plan of this workload is a fault-free C04 plan (stubs, real instructions that create files and directories, children
 that write, an action with output, assertions that make Exactly spool transformed text to disk) plus
-`diskfault = {nth, errno}`: the n-th creation of a directory / file / temporary file that *Exactly itself* performs
-inside the world fails.  Every plan is executed twice in the same world layout: with the fault, and as its fault-free
+`diskfault = {nth, errno, at}`: the n-th creation of a directory / file / temporary file that *Exactly itself* performs
+inside the world fails (at = create), or the n-th write to / close of a file that Exactly opened for writing there (at =
+write: a short write, then the error; at = close: the error is reported when the file is closed).  Every plan is executed twice in the same world layout: with the fault, and as its fault-free
 twin (which also numbers the creation sites).  What is judged - only clauses that the two properties state for
 "whatever happened" / "every kind of ending":
 
@@ -27,12 +28,15 @@ SWEEP_NTH = 44
 CL = casegen.PREFIX['cleanup']
 LAYOUT_PATHS = ('act', 'tmp', 'result', 'internal', 'internal/tmp', 'internal/log')
 PROBES = ['disk_plan', 'diskfault_fired', 'diskfault_not_reached', 'disk_while_building_sandbox', 'disk_in_setup_or_act',
-          'disk_in_assertions', 'disk_in_cleanup', 'disk_op_mkdir', 'disk_op_create', 'disk_op_tmpfile',
+          'disk_in_assertions', 'disk_in_cleanup', 'disk_op_mkdir', 'disk_op_create', 'disk_op_tmpfile', 'disk_op_write', 'disk_op_close',
           'disk_reported_hard_error', 'disk_reported_internal_error', 'disk_keep', 'disk_act_mode']
 
 
+SWEEP_NTH_IO = 30  # write / close faults: nth = 1..30 per base case (without --keep)
+
+
 def n_sweep():
-    return SWEEP_BASES * SWEEP_NTH * 2
+    return SWEEP_BASES * SWEEP_NTH * 2 + 2 * SWEEP_BASES * SWEEP_NTH_IO
 
 
 def _extra_items(case, procs, g):
@@ -67,9 +71,17 @@ def _extra_items(case, procs, g):
 def make_plan(prop, j, seed, tier, sweep):
     """j-th disk plan of a check.  Sweep: base case j // (2 * SWEEP_NTH) x keep x nth = 1..SWEEP_NTH (ENOSPC)."""
     from engines import c04
+    at = 'create'
     if sweep:
-        b, rest = divmod(j, 2 * SWEEP_NTH)
-        keep, nth = bool(rest // SWEEP_NTH), rest % SWEEP_NTH + 1
+        n_create = SWEEP_BASES * SWEEP_NTH * 2
+        if j < n_create:
+            b, rest = divmod(j, 2 * SWEEP_NTH)
+            keep, nth = bool(rest // SWEEP_NTH), rest % SWEEP_NTH + 1
+        else:
+            k = j - n_create
+            at = 'write' if k < SWEEP_BASES * SWEEP_NTH_IO else 'close'
+            b, nth = divmod(k % (SWEEP_BASES * SWEEP_NTH_IO), SWEEP_NTH_IO)
+            keep, nth = False, nth + 1
         base_seed = kernel.h('disk-base', b)[:16]
         errno_name = 'ENOSPC'
     else:
@@ -78,7 +90,7 @@ def make_plan(prop, j, seed, tier, sweep):
     plan = c04.random_plan(base_seed, tier, g, None, armed=False, extra=_extra_items, density=0.9 if sweep else 0.6)
     if sweep:
         plan['knobs']['mem_buff_size'] = [1, 8192, 3, 1][b % 4]
-        plan['launch'] = {'elsewhere': False, 'pp': False}
+        plan['launch'] = {'elsewhere': False, 'pp': b % 4 == 3}  # (one base case is read through a preprocessor)
         plan['case'].pop('layout', None)
         plan['status'] = 'PASS'
     else:
@@ -86,9 +98,15 @@ def make_plan(prop, j, seed, tier, sweep):
         keep = d.random() < 0.4
         nth = d.randint(1, 50) if d.random() < 0.8 else d.randint(1, 8)
         errno_name = d.choice(ERRNOS)
+        at = d.choices(['create', 'write', 'close'], [55, 30, 15])[0]
+        if at != 'create':
+            nth = d.randint(1, 30)
     plan.update(run_seed=seed, property=prop, engine=prop.lower(), mode='disk', keep=keep, sweep=bool(sweep),
-                diskfault={'nth': nth, 'errno': errno_name})
+                diskfault={'nth': nth, 'errno': errno_name, 'at': at})
     plan.pop('act_mode', None)
+    if not sweep:
+        lg = kernel.stream(seed, 'disk-launch2')
+        plan['launch'] = {'elsewhere': lg.random() < 0.3, 'pp': lg.random() < 0.3}
     if not keep and not sweep and kernel.stream(seed, 'disk-launch').random() < 0.15:
         plan['act_mode'] = True
     plan.setdefault('act_mode', False)
@@ -100,7 +118,7 @@ def make_plan(prop, j, seed, tier, sweep):
 def execute(plan, scratch):
     from engines import c04
     hist = c04.execute_plain(plan, scratch)
-    twin_plan = dict(copy.deepcopy(plan), diskfault={'nth': 0, 'errno': plan['diskfault']['errno']})
+    twin_plan = dict(copy.deepcopy(plan), diskfault=dict(plan['diskfault'], nth=0))
     twin = c04.execute_plain(twin_plan, scratch)
     hist['twin'] = {'obs': observable(twin), 'exit': twin['result']['exit'], 'stdout': twin['result']['stdout'],
                     'ops': twin['disk']['ops'], 'violations_of_plain_oracle': [v['rule'] for v in c04.oracle_plain(twin_plan, twin)]}
@@ -180,7 +198,8 @@ def oracle_c04(plan, hist):
     if res.get('hang') or res.get('escape') or res.get('exception'):
         bad('disk.returns', 'execute returns', {k: res.get(k) for k in ('hang', 'escape', 'exception')})
         return V
-    c04.judge_in_situ(plan, hist, bad, upto=d['seq'])
+    if hist['n_sandboxes'] > 0:  # (a fault while the case is read prevents the execution: no sandbox, nothing to observe)
+        c04.judge_in_situ(plan, hist, bad, upto=d['seq'])
     if not res['cwd_ok']:
         bad('disk.isolation.cwd_restored', res['cwd_before'], res['cwd_after'])
     if not res['environ_ok']:
@@ -222,6 +241,15 @@ def oracle_c01(plan, hist):
             bad('disk.same_plan_same_history', {'obs': t['obs'], 'exit': t['exit']}, {'obs': obs, 'exit': res['exit']})
         return V
     invisible = obs == t['obs'] and res['exit'] == t['exit']
+    before_execution = hist['n_sandboxes'] == 0
+    if before_execution:
+        # the fault struck while the case was read (preprocessor output, ...): no step of the case is being executed yet;
+        # what prevents execution is reported as one of the error verdicts (which one is C02's business), nothing runs
+        pre_conf = [e for e in t['obs'] if e[1].startswith(casegen.PREFIX['conf'])]
+        if not invisible and (res['exit'] not in (65, 128, 129) or obs != pre_conf[:len(obs)]):
+            bad('disk.fault_before_execution_prevents_it', 'an error verdict (exit 65 / 128 / 129), nothing executed',
+                {'exit': res['exit'], 'stdout': res['stdout'][:80], 'observed': obs, 'fault': [d['op'], d['path']]})
+        return V
     if not invisible:
         ident = {128: 'HARD_ERROR', 129: 'INTERNAL_ERROR'}.get(res['exit'])
         shown = res['stdout'] if not (plan['keep'] or plan.get('act_mode')) else None
@@ -251,8 +279,14 @@ def oracle_c01(plan, hist):
 
 def signature(plan, hist):
     d = hist['disk']
-    return bool(d['fired']), ('disk', plan['keep'], bool(plan.get('act_mode')), plan['diskfault']['errno'], d['op'],
+    return bool(d['fired']), ('disk', plan['keep'], bool(plan.get('act_mode')), plan['diskfault']['errno'], d['op'], _site(d),
                              _where(hist) if d['fired'] else None, hist['result']['exit'], len(hist['obs']))
+
+
+def _site(d):
+    """Which kind of file the fault struck (the name without the numbers the sandbox and the instructions give it)."""
+    import re
+    return re.sub(r'\d+', 'N', (d.get('path') or '').split('/')[-1]) if d.get('fired') else None
 
 
 def sample_view(plan, hist):
